@@ -16,6 +16,8 @@ RULE = ("generated topologies: 1..300 atoms quick / to 3000 thorough; shapes cha
         "increasing atom numbers with random gaps; bonds spread over constraints/bonds/pairs, sections split into repeated "
         "occurrences and permuted (bonds before atoms included), unrelated sections, comment/blank/preprocessor lines, "
         "varied spacing, integer spellings (+5, 007, 1_000), trailing comments, CRLF files, missing final newline; "
+        "call histories every run: one scratch path reused for 3-6 successive different topologies (incl. pairs of equal "
+        "byte length: two atom names / two bond partners / two comment words swapped), each written and loaded back to back; "
         "size-boundary stream every run (499/500/501/502, ~800, ~1200 atoms: connected; one isolated atom at the end / start / "
         "middle; k trailing isolated atoms; two large components; chain or cyclic graph + trailing isolated atom), expected "
         "connectivity by union-find; malformed stream (missing sections, empty atoms, unknown atom number, short lines, bad integers) compared by error "
@@ -136,6 +138,51 @@ def check_generated(ctx, text, truth, crlf=False, key="topology", label=""):
     return path, bad
 
 
+def check_history(ctx, rs, nseq, on_step=None, label="same-path history"):
+    """call HISTORIES: one scratch path reused for successive different topologies (pairs of equal byte length
+    included), each written and loaded back to back without sleeping: every load must give the CURRENT content.
+    Returns the number of failing steps."""
+    fails = 0
+    for _ in range(nseq):
+        path = ic.molgen.fresh_path("itp", "scratch")
+        seq = ic.variant_sequence(rs)
+        texts = []
+        for step, (kind, text, truth) in enumerate(seq):
+            ic.write_text(text, path=path)
+            texts.append(text)
+            bad = oracle_topology(path, truth)
+            ctx.count(("hist", text, step), step > 0)
+            if on_step:
+                on_step(path, text, truth, kind)
+            if bad:
+                fails += 1
+                ctx.violation("%s, step %d (%s) on one path: %s" % (label, step, kind, "; ".join(bad[:3])),
+                              {"kind": "history", "texts": texts, "truth": [truth[0], [list(a) for a in truth[1]],
+                                                                             [list(b) for b in truth[2]]]}, key="history")
+                break
+    return fails
+
+
+def replay_history(texts, truth):
+    """writes texts[:-1] and loads each, then texts[-1]: the last load must be `truth`; retried on a fresh path
+    (a second boundary between two writes may hide a stale-cache effect)"""
+    from gaddlemaps.parsers import read_topology
+    bad = []
+    for _ in range(5):
+        path = ic.molgen.fresh_path("itp", "scratch")
+        for text in texts[:-1]:
+            ic.write_text(text, path=path)
+            try:
+                read_topology(path)
+            except Exception:   # noqa: BLE001
+                pass
+        ic.write_text(texts[-1], path=path)
+        bad = oracle_topology(path, truth)
+        if bad:
+            return bad
+    return bad
+
+
 # ------------------------------------------------------------------ corpus
 def corpus(ctx):
     S = ctx.cov["S"]
@@ -148,6 +195,12 @@ def corpus(ctx):
             t["secs"]["bonds"] = [b for b in t["secs"]["bonds"] if b[0] != cut]
         text = ic.render_topology(rs, t, deco=False)
         check_generated(ctx, text, ic.expected_topology(t), key="long_chain", label="chain of %d atoms" % n)
+        S["corpus"] += 1
+    # call-history witness (a loader that memoises per path and revalidates by a whole-second time stamp returns the
+    # PREVIOUS molecule): ten successive topologies through one scratch file name
+    for _ in range(3):
+        if check_history(ctx, rs, 1, label="corpus history"):
+            break
         S["corpus"] += 1
     # size-boundary witnesses (an are_connected that switches algorithm above 500 atoms and sizes the graph from the
     # bonds forgets trailing unbonded atoms): tree on 1197 atoms + 3 trailing unbonded, cyclic graph on 800 atoms + 1
@@ -242,6 +295,8 @@ def correspondence(ctx):
         add_file(text, path, "malformed:" + tag)
     for p in ic.shipped_topologies(include_large=not ctx.quick):
         add_file(None, p, "shipped")
+    # same-path call histories: the observation of every step goes to the model together with the text of that step
+    check_history(ctx, rs, ctx.n(6, 40), on_step=lambda path, text, truth, kind: add_file(text, path, "history:" + kind, truth))
     # size boundaries (499..502, ~800, ~1200 atoms; isolated atoms / second component at the end, start, middle):
     # real AtomTop lists loaded from files; the adjacency in the implementation's iteration order goes to the model
     from gaddlemaps.components import MoleculeTop, are_connected
@@ -339,6 +394,10 @@ def oracle(ctx, scale):
         hist[shape] = hist.get(shape, 0) + 1
         ctx.count(("S", text))
         fails += bool(bad)
+    # same-path call histories
+    nh = ctx.n(25, 200) * scale
+    fails += check_history(ctx, rs, nh)
+    S["same_path_histories_x%d" % scale] = nh
     # size boundaries: see ic.boundary_graphs
     nb = 0
     for _ in range(scale):
@@ -371,6 +430,9 @@ def replay(ctx, obj):
         tr = r["truth"]
         path = ic.write_text(r["text"], crlf=bool(r.get("crlf")))
         bad = oracle_topology(path, (tr[0], [tuple(a) for a in tr[1]], [tuple(b) for b in tr[2]]))
+    elif r.get("kind") == "history":
+        tr = r["truth"]
+        bad = replay_history(r["texts"], (tr[0], [tuple(a) for a in tr[1]], [tuple(b) for b in tr[2]]))
     elif r.get("kind") == "adjacency":
         b = oracle_adjacency(r["adj"])
         bad = [b] if b else []
